@@ -213,6 +213,20 @@ def translate_phase4(src: Path, conn, man) -> list:
     ifn = [x for x in h.body if isinstance(x, ast.If)][0]
     out += ['Definition dl_nosize_state : dstate := DRefused.   (* refused before state.initialize() *)',
             f'Definition dl_offset_fail_state : dstate := {_state(_u(ifn.orelse[0]), DSTATE, "offset send failure")}.']
+    # _on_peer_transfer_request: no second negotiation task while one is pending
+    optr = _fn(tm.body, '_on_peer_transfer_request')
+    creates = [n for n in ast.walk(optr) if isinstance(n, ast.Assign) and _u(n.targets[0]) == 'transfer._transfer_task'
+               and 'self._initialize_download(transfer, connection, message)' in _u(n.value)]
+    if len(creates) != 1:
+        raise Refuse('_on_peer_transfer_request: expected exactly one place that starts _initialize_download')
+    guard = 'false'
+    for node in ast.walk(optr):
+        for body in (getattr(node, 'body', None), getattr(node, 'orelse', None)):
+          if isinstance(body, list) and creates[0] in body:
+            i = body.index(creates[0])
+            if i > 0 and _u(body[i - 1]) == 'if transfer._transfer_task is not None and (not transfer._transfer_task.done()):\n    return':
+                guard = 'true'
+    out += [f'Definition dl_guard_pending_task : bool := {guard}.   (* a request is ignored while a negotiation task of the transfer is pending *)']
     # _download_file
     df = _body(_fn(tm.body, '_download_file'))
     tr = [x for x in df if isinstance(x, ast.Try)][-1]
@@ -263,9 +277,15 @@ def translate_phase4(src: Path, conn, man) -> list:
         raise Refuse(f'_upload_file: file error handler changed: {fa}')
     hw = _handler(tr, 'ConnectionWriteError', '_upload_file')
     wa = _acts(hw.body)
-    msg = len(wa) == 2 and 'PeerUploadFailed.Request(transfer.remote_path)' in wa[1] and wa[1].startswith('try:')
+    msg = len(wa) == 2 and any('PeerUploadFailed' in x or '_notify_upload_failed' in x for x in wa)
     if not (len(wa) == 1 or msg):
         raise Refuse(f'_upload_file: write error handler changed: {wa}')
+    # the state change must come BEFORE the notification (which can raise or take long)
+    st_i = [i for i, x in enumerate(wa) if x.startswith('await transfer.state.')]
+    if len(st_i) != 1:
+        raise Refuse(f'_upload_file: write error handler changed: {wa}')
+    fail_first = st_i[0] == 0
+    wa = [wa[st_i[0]]] + [x for i, x in enumerate(wa) if i != st_i[0]]
     oe = tr.orelse
     waits = len(oe) == 2 and _u(oe[0]) == 'await connection.receive_until_eof(raise_exception=False)'
     if not (waits or len(oe) == 1):
@@ -275,6 +295,7 @@ def translate_phase4(src: Path, conn, man) -> list:
             f'Definition ul_file_error_state : ustate := {_state(fa[0], USTATE, "_upload_file file error")}.',
             f'Definition ul_write_error_state : ustate := {_state(wa[0], USTATE, "_upload_file write error")}.',
             f"Definition ul_write_error_msg : bool := {'true' if msg else 'false'}.   (* PeerUploadFailed sent *)",
+            f"Definition ul_fail_before_notify : bool := {'true' if fail_first else 'false'}.   (* state.fail() precedes the notification *)",
             f"Definition ul_waits_eof : bool := {'true' if waits else 'false'}.",
             f'Definition ul_done_state (transfered : bool) : ustate := if transfered then {a} else {b}.', '']
     return out
